@@ -16,11 +16,14 @@ CONFIG = {
     ],
     "mult_search": 3,
     "refuted": [],
-    "partial": [],
+    "partial": [
+        "C02_full is proved for the model, with a package-level contract (package_contract) that covers the main generated file of every source file: exact message / enum sets, fields (name, JSON name, number, type kind, label, proto3_optional, oneof membership), enum values, inline nesting to any depth. NOT in the package-level contract: the type NAME a message/enum field refers to, the dependency list, the .service / .topic sub-package files, the exact set of output files - for these there are converter-level theorems (C02_service_contract, C02_topic_contract, C02_references_*, C02_imports_become_dependencies, C02_inline_type_name, C02_map_entry_type_name) that are not yet composed with compile, plus whole-descriptor correspondence and the direct oracle",
+        "the symbol clause of `valid` (no two declarations of a package generate the same proto symbol) is evaluated on the model's converter output, not stated on the source; `valid` calls the model's reference resolution (completeness and soundness of resolve w.r.t. the documented rule are separate theorems). `valid` is tied to the real compiler on every generated case: valid <-> every package of the bundle is accepted",
+    ],
 }
 
 MANIFEST = {
-    "text": "Theorems over a Gallina model of sourcewalk + j5convert + the export/import resolution of protobuild + protocompile's relative type-name resolution, for every name-conversion function and every declaration at every nesting depth (mutual induction on the syntax): (1) contract of properties: fields exactly the declared ones (name, JSON name, number = 1-based position after implicit leading fields, proto type, cardinality, optionality, oneof membership), nested messages/enums exactly the inline types and map entries under the default or overridden name, recursively; (2) enums numbered in order after <PREFIX>UNSPECIFIED = 0; (3) services and topics: <Name>Service / <Topic>Topic, <Method>Request/Response, <Name>Message, HTTP verb and path with :name -> {snake_name}, messaging role, implicit leading metadata field = 1; (4) references: resolution is sound w.r.t. the documented import rule (declarative relation), every reference resolves and its defining file becomes a dependency; (5) acceptance: every package of a valid bundle converts; (6) soundness for whole packages: whatever compiles (conversion + link) satisfies the structural contract, and the link step changes type names only; (7) after the link step an inline type name is .<package>.Root.Path.Name and a map entry name the nested entry; (8) C02_full: every package of a valid bundle compiles (conversion, link step, link of all imported generated files) to descriptors satisfying the contract. The whole model - imports, services, topics, sub-package files, link step - is tied to the real compiler by comparing complete descriptors of generated bundles; the tables of imports.go / fields.go are re-read on every run.",
+    "text": "Theorems over a Gallina model of sourcewalk + j5convert + the export/import resolution of protobuild + the link boundary (qualifyTypeNames of fix 2ef7c92, the linker's symbol table, file-scope resolution of method types), for every name-conversion function and every declaration at every nesting depth (mutual induction on the syntax): (1) contract of properties: fields exactly the declared ones (name, JSON name, number = 1-based position after implicit leading fields, proto type, cardinality, optionality, oneof membership), nested messages/enums exactly the inline types and map entries under the default or overridden name, recursively; (2) enums numbered in order after <PREFIX>UNSPECIFIED = 0; (3) services and topics: <Name>Service / <Topic>Topic, <Method>Request/Response, <Name>Message, HTTP verb and path with :name -> {snake_name}, messaging role, implicit leading metadata field = 1; (4) references: resolution is sound w.r.t. the documented import rule (declarative relation), every reference resolves and its defining file becomes a dependency; (5) acceptance: every package of a valid bundle converts; (6) soundness for whole packages: whatever compiles (conversion + link) satisfies the structural contract, and the link step changes type names only; (7) after the link step an inline type name is .<package>.Root.Path.Name and a map entry name the nested entry; (8) C02_full: every package of a valid bundle compiles (conversion, symbol table, link step, link of all imported generated files) to descriptors satisfying the structural contract of the main files. `valid` = documented restrictions + no two declarations generating the same proto symbol; on every generated bundle, every broken bundle (14 classes, 7 of them duplicate-symbol classes) and every corpus case Coq evaluates `valid` and compares it with acceptance by the real compiler. The whole model - imports, services, topics, sub-package files, link step - is tied to the real compiler by comparing complete descriptors of generated bundles; the tables of imports.go / fields.go are re-read on every run.",
     "note": 'Proved at full strength for the model (C02_full: valid bundle => every package compiles to the contract); the model is tied to the real compiler by whole-descriptor correspondence. Defects found and repaired in /repo: 3ec2d86 (service/topic request/response/message objects were exported as main-package types), 2ef7c92 (relative type names of inline types resolved into the wrong scope; names are now qualified before linking) - both inputs are regression theorems (C02_fixed_*) and corpus cases. Modelled, not verified: strcase (lib/Strcase.v, own stream), path.Join, the BCL front end (tied through printed text in all surface forms the printer knows). Outside the model: entities, rules/ext options, descriptions, symbol-collision checks of protocompile (validity demands distinct sibling names instead). All theorems closed under the global context.',
     "technique": "Rocq/Coq proof (refinement of the compiler model to a declarative contract, induction on the syntax) + regenerated import/type tables + in-Coq differential correspondence on whole descriptors",
 }
